@@ -68,6 +68,18 @@ fn main() {
                 }
             }
         }
+        "pp" => {
+            // debug: bgv pp <file.rs> <merge 0|1> <sort 0|1>
+            let text = std::fs::read_to_string(&args[2]).expect("read");
+            let out = bindgen::verif::postprocess(&text, args[3] == "1", args[4] == "1");
+            println!("{}", out.unwrap_or_else(|| "<<unparseable>>".into()));
+        }
+        "tokens" => {
+            let text = std::fs::read_to_string(&args[2]).expect("read");
+            for t in rs::flat_tokens(&text) {
+                println!("{t}");
+            }
+        }
         "worker" => {
             props::worker_main();
         }
